@@ -83,6 +83,7 @@ Fixpoint tr_node (f : nt) (p : plan) {struct p} : outcome (plan * bool) :=
   | PMap s es src => obind (tr_node f src) (fun a => fin (PMap s es (fst a)) (snd a))
   | PUnnest s fd src => obind (tr_node f src) (fun a => fin (PUnnest s fd (fst a)) (snd a))
   | POst s k d li src => obind (tr_node f src) (fun a => fin (POst s k d li (fst a)) (snd a))
+  | PTvfT s fn ta ar src => obind (tr_node f src) (fun a => fin (PTvfT s fn ta ar (fst a)) (snd a))
   end.
 
 (* `if changed { return output, true } else { return node, false }` *)
@@ -270,12 +271,14 @@ Fixpoint tr_pure (f : plan -> plan) (p : plan) {struct p} : plan :=
   | PMap s es src => f (PMap s es (tr_pure f src))
   | PUnnest s fd src => f (PUnnest s fd (tr_pure f src))
   | POst s k d li src => f (POst s k d li (tr_pure f src))
+  | PTvfT s fn ta ar src => f (PTvfT s fn ta ar (tr_pure f src))
   end.
 (* the nodes in the order a NodeTransformer sees them *)
 Fixpoint subplans_post (p : plan) : list plan :=
   match p with
   | PDatasource _ _ _ _ _ _ | PTvf _ _ _ => [p]
-  | PDistinct _ src | PFilter _ _ src | PGroupBy _ _ _ _ _ _ src | PMap _ _ src | PUnnest _ _ src | POst _ _ _ _ src =>
+  | PDistinct _ src | PFilter _ _ src | PGroupBy _ _ _ _ _ _ src | PMap _ _ src | PUnnest _ _ src | POst _ _ _ _ src
+  | PTvfT _ _ _ _ src =>
       subplans_post src ++ [p]
   | PStreamJoin _ _ _ l r | PLookupJoin _ l r => subplans_post l ++ subplans_post r ++ [p]
   end.
@@ -307,12 +310,13 @@ Definition node_exprs (p : plan) : list expr :=
   | PStreamJoin _ lk rk _ _ => lk ++ rk
   | PMap _ es _ => es
   | POst _ keys _ limit _ => keys ++ match limit with Some e => [e] | None => [] end
-  | PTvf _ _ args => flat_map (fun a => match snd a with TAExpr e => [e] | TADesc _ => [] end) args
+  | PTvf _ _ args | PTvfT _ _ _ args _ => flat_map (fun a => match snd a with TAExpr e => [e] | TADesc _ => [] end) args
   end.
 Definition node_uses (c : cfg) (field : name) (p : plan) : bool :=
   existsb (fun e => mem field (expr_vars e)) (node_exprs p) ||
   match p with
-  | PTvf _ _ args => existsb (fun a => match snd a with TADesc d => name_eqb d field | TAExpr _ => false end) args
+  | PTvf _ _ args | PTvfT _ _ _ args _ =>
+      existsb (fun a => match snd a with TADesc d => name_eqb d field | TAExpr _ => false end) args
   | PDistinct s _ => mem field (sf s)
   | PUnnest _ fd _ => unnest_counts c && name_eqb fd field
   | _ => false
@@ -350,6 +354,7 @@ Definition with_schema (s : schema) (p : plan) : plan :=
   | PUnnest _ f x => PUnnest s f x
   | POst _ k d li x => POst s k d li x
   | PTvf _ f a => PTvf s f a
+  | PTvfT _ f ta a x => PTvfT s f ta a x
   end.
 
 Definition remove_from_passers1 (field : name) (p : plan) : plan :=
@@ -458,6 +463,7 @@ Fixpoint set_policy0 (p : plan) : plan :=
   | PUnnest s f x => PUnnest s f (set_policy0 x)
   | POst s k d li x => POst s k d li (set_policy0 x)
   | PTvf _ _ _ => p
+  | PTvfT s f ta a x => PTvfT s f ta a (set_policy0 x)
   end.
 (* (the harness also gives the datasources an accepting push-down policy to exercise that rule; the policy the
    typechecker produced is 0, which is what wf_plan asks for) *)
